@@ -395,6 +395,7 @@ func genCase(t *rapid.T) gsim.Case {
 	}
 	c.MultiTopic = c.Topics > 1 && rapid.Bool().Draw(t, "multiTopic")
 	c.MaxBytes = rapid.SampledFrom([]int{0, 0, 0, 200, 400, 900}).Draw(t, "maxBytes")
+	c.ReverseOffsetFetch = rapid.IntRange(0, 2).Draw(t, "reverseOffsetFetch") == 0
 	mixStratum := rapid.IntRange(0, 5).Draw(t, "mixStratum") == 0
 	if mixStratum {
 		// one CommitMessages call carrying messages of two topics in alternating order
